@@ -52,6 +52,10 @@ def sameArguments (a b : List Arg) : Bool :=
       | some q => p.2.compare q.2
       | none => false
 
+/-- the name denotes a scalar or enum type of the schema -/
+def Schema.isLeafName (s : Schema) (n : Name) : Bool :=
+  match s.typeByName n with | some t => t.isLeaf | none => false
+
 /-- `is_type_conflict` -/
 def isTypeConflict (s : Schema) : Ty → Ty → Bool
   | .list t1, .list t2 => isTypeConflict s t1 t2
@@ -61,8 +65,7 @@ def isTypeConflict (s : Schema) : Ty → Ty → Bool
   | .nonNull _, _ => true
   | _, .nonNull _ => true
   | .named a, .named b =>
-      let leaf (n : Name) := match s.typeByName n with | some t => t.isLeaf | none => false
-      if leaf a || leaf b then a != b else false
+      if s.isLeafName a || s.isLeafName b then a != b else false
 
 /-- `PairSet`: both orders are stored with the same flag -/
 abbrev PairSet := List ((Name × Name) × Bool)
